@@ -38,6 +38,13 @@ CHECKS["C20"] = dict(
     ref="5/C20",
 )
 
+CHECKS["C16"] = dict(
+    technique="TLA+ twin-history model (SaveTwin.tla) model-checked incl. a negative configuration; TLC-generated histories replayed on pairs of real TTFont objects and judged by TLC; subprocess digests across hash seeds / lazy / access orders judged by TLC",
+    text="TLC checks SaveTransparent/SaveIdempotent on the twin model (and that they fail when compile-time residue feeds the encoder), exports every history up to 4 operations, which are replayed on two real TTFont objects (one additionally saved/dumped as the history says) over a rotating corpus sample plus generated fonts whose GSUB overflows 16-bit offsets (with and without the HarfBuzz repacker); per-table bytes of the final and repeated saves are judged by TLC. Every pipeline (recompile, TTX import, TTX dump, feaLib, subset, instancer, varLib.build, merge) runs in fresh subprocesses under several PYTHONHASHSEED values x lazy modes x table access orders with SOURCE_DATE_EPOCH pinned; TLC requires one digest per (input, operation).",
+    note="Trusted: TLC, sha256/interning of outputs. A handful of hash seeds, not all; edits are a fixed family of benign field edits.",
+    ref="5/C16",
+)
+
 NOT_YET = "check not built yet in this round (see DESIGN.md section 10 for the build order)"
 
 
